@@ -49,6 +49,10 @@ class C10:
         n = n_for(tier, 4000, 120000)
         for k in range(n):
             hs = wf_headers(rng)
+            if rng.chance(1, 80):
+                hs = [(b"H%d" % i, b"v%d" % i) for i in range(rng.pick([99, 100, 101, 102, 121, 250]))]
+            elif rng.chance(1, 80):
+                hs = hs + [(b"X-Long", b"v" * rng.pick([990, 991, 992, 4085, 4086, 4087, 8183, 65530]))]
             body = rng.pick(BODIES) if rng.chance(1, 2) else gen.rand_bytes(rng, rng.below(30))
             if rng.chance(1, 8):
                 body += rng.pick([b"\r", b"\n", b"\r\n", b" ", b"\t"])
@@ -56,7 +60,7 @@ class C10:
             if with_cl:
                 hs.insert(rng.below(len(hs) + 1), (gen.randcase(rng, b"Content-Length") if rng.chance(1, 4) else b"Content-Length", str(len(body)).encode()))
             longest = max([len(a) + 2 + len(b) + 2 for a, b in hs] or [2])
-            hl = rng.pick([None, None, 1000, longest, longest + 1, longest + 5])
+            hl = rng.pick([None, None, 1000 if longest <= 1000 else None, longest, longest + 1, longest + 5])
             if k % 2 == 0:
                 method = rng.pick(gen.GOOD_METHODS[:10]) if rng.chance(1, 2) else gen.rand_token(rng)
                 target = gen.rand_target(rng)
@@ -76,6 +80,8 @@ class C10:
             else:
                 code = rng.pick([0, 1, 99, 100, 200, 204, 404, 999, rng.below(1000)])
                 reason = rng.pick(gen.REASONS) if rng.chance(2, 3) else gen.rand_bytes(rng, rng.below(12), VALUE_ALPHA + b"  \t")
+                if rng.chance(1, 40):       # status lines of 4094..4096, 8191 and 65535 bytes (13 bytes precede a 3-digit code's reason)
+                    reason = b"r" * (rng.pick([4094, 4095, 4095, 4096, 8191, 8192, 65535]) - 10 - len(str(code)))
                 g = Group("g%d" % k, "resp-value", {"code": code, "reason": reason.hex(), "headers": [[a.hex(), b.hex()] for a, b in hs], "body": body.hex(), "hl": hl})
                 g.add("grt", "RESPGRT %s %d %s %s %s" % (opt(hl), code, hx(reason), hdrs_field(hs), hx(body)))
             groups.append(g)
@@ -209,7 +215,7 @@ class C11:
 # de-chunk rewrite (C12)
 
 FRAMING = (b"content-length", b"transfer-encoding", b"trailer")
-OTHER_CODINGS = [b"gzip", b"deflate", b"foo", b"bar", b"GZIP", b"x-custom", b"compress", b"", b"gzip", b"foo", b"identity", b"Identity", b"x-identity"]
+OTHER_CODINGS = [b"gzip", b"deflate", b"foo", b"bar", b"GZIP", b"x-custom", b"compress", b"", b"gzip", b"foo", b"identity", b"Identity", b"x-identity", b"x-gzip", b"X-GZip", b"x-compress", b"x-deflate"]
 
 
 def tokens_of(values):
@@ -254,7 +260,10 @@ class C12:
             if rng.chance(1, 3):
                 hs.insert(rng.below(len(hs) + 1), (gen.randcase(rng, b"Trailer"), rng.pick([b"X-T", b"X-T, Host", b"Content-Length"])))
             trs = []
-            for _ in range(rng.below(4) if rng.chance(2, 3) else 0):
+            if rng.chance(1, 60):       # a long trailer section (a cap on the number of fields would show)
+                first = [(b"Content-Length", b"9")] if rng.chance(1, 2) else []
+                trs = first + [(b"T%d" % i, b"v%d" % i) for i in range(rng.pick([99, 100, 101, 102, 150]))]
+            for _ in range(rng.below(4) if rng.chance(2, 3) and not trs else 0):
                 a, b = rng.pick(gen.TRAILER_FIELDS + [(x, y) for x, y in hs[:2]])
                 trs.append((gen.randcase(rng, a) if rng.chance(1, 3) else a, b))
             payload = gen.rand_bytes(rng, rng.below(30), b"abc\r\n0")
